@@ -35,7 +35,7 @@ type foreignExc struct {
 	s string
 }
 
-func (f *foreignExc) Error() string  { return f.s }
+func (f *foreignExc) Error() string { return f.s }
 func (f *foreignExc) TypeId() int32 { return f.t }
 
 func descJSON(d *ErrDesc) string {
